@@ -43,6 +43,26 @@ impl Walk {
         n
     }
 
+    /// the other ways of consuming an iterator that `next()` drained in `n` steps: they must return
+    /// normally too (what they return is judged by C11 / C15)
+    fn other_ways<I: Iterator>(&mut self, name: &'static str, n: usize, mk: impl Fn() -> I) {
+        if n > bound(self.len) || n > 100_000 {
+            return;
+        }
+        step(name);
+        let _ = mk().size_hint();
+        let _ = mk().count();
+        let _ = mk().last().is_some();
+        for k in [0, 1, n / 2, n.saturating_sub(1), n, n + 1] {
+            let mut it = mk();
+            let _ = it.nth(k).is_some();
+            let _ = it.next().is_some();
+            let _ = it.count();
+        }
+        let _ = mk().skip(1).take(n + 1).count();
+        let _ = mk().step_by(3).take(n + 1).count();
+    }
+
     fn header<'a, P: RtcpPacketParser<'a>>(&mut self, p: &P) {
         step("header accessors");
         let _ = (p.version(), p.type_(), p.subtype(), p.length(), p.count(), p.header_data());
@@ -75,6 +95,7 @@ impl Walk {
         for b in &blocks {
             self.rb(b);
         }
+        self.other_ways("SenderReport::report_blocks (count/last/nth/skip/step_by)", blocks.len(), || p.report_blocks());
         step("SenderReport Debug/Clone/PartialEq");
         let _ = format!("{p:?}");
         let _ = p.clone() == *p;
@@ -92,6 +113,7 @@ impl Walk {
         for b in &blocks {
             self.rb(b);
         }
+        self.other_ways("ReceiverReport::report_blocks (count/last/nth/skip/step_by)", blocks.len(), || p.report_blocks());
         step("ReceiverReport Debug/Clone/PartialEq");
         let _ = format!("{p:?}");
         let _ = p.clone() == *p;
@@ -133,6 +155,7 @@ impl Walk {
                 let _ = it.clone() == *it;
             }
             step("SdesChunk Debug/Clone/PartialEq");
+            let _ = format!("{c:?}");
             let _ = c.clone() == *c;
         }
         if nchunks + nitems > bound(self.len) && self.over.is_none() {
@@ -147,7 +170,8 @@ impl Walk {
         self.header(p);
         step("Bye::padding");
         let _ = p.padding();
-        self.drain("Bye::ssrcs", p.ssrcs());
+        let n = self.drain("Bye::ssrcs", p.ssrcs());
+        self.other_ways("Bye::ssrcs (count/last/nth/skip/step_by)", n, || p.ssrcs());
         step("Bye::reason");
         let _ = p.reason();
         step("Bye::get_reason_string");
@@ -175,7 +199,8 @@ impl Walk {
     }
 
     fn nack(&mut self, f: &Nack) {
-        self.drain("Nack::entries", f.entries());
+        let n = self.drain("Nack::entries", f.entries());
+        self.other_ways("Nack::entries (count/last/nth/skip/step_by)", n, || f.entries());
     }
     fn fir(&mut self, f: &Fir) {
         step("Fir::entries");
@@ -188,6 +213,7 @@ impl Walk {
             step("FirEntry accessors");
             let _ = (e.ssrc(), e.sequence(), format!("{e:?}"), e == e);
         }
+        self.other_ways("Fir::entries (count/last/nth/skip/step_by)", v.len(), || f.entries());
     }
     fn sli(&mut self, f: &Sli) {
         step("Sli::lost_macroblocks");
@@ -203,6 +229,7 @@ impl Walk {
         if n > b && self.over.is_none() {
             self.over = Some(("Sli::lost_macroblocks", n));
         }
+        self.other_ways("Sli::lost_macroblocks (count/last/nth/skip/step_by)", n, || f.lost_macroblocks());
         step("Sli Debug");
         let _ = format!("{f:?}").len();
     }
@@ -364,6 +391,8 @@ pub fn exercise_everything(b: &[u8]) -> Result<bool, Failure> {
                 step("Compound::next (after the end)");
                 let _ = c.next().is_some();
             }
+            w.other_ways("Compound (count/last/nth/skip/step_by)", n, || Compound::parse(b).expect("accepted above"));
+            step("SdesChunk Debug");
         }
         step("Packet::parse");
         if let Ok(p) = Packet::parse(b) {
@@ -544,13 +573,13 @@ pub fn c01(tier: Tier) -> Check {
             "built with debug assertions and overflow checks on, as in a user's dev build",
         ],
         legs: vec![
-            Box::new(RandomLeg { name: "generated-strings", cases: tier.pick(150_000, 4_000_000), make: Box::new(gen::parser_input), oracle: c01_oracle }),
-            Box::new(RandomLeg { name: "fci-and-sdes-shaped", cases: tier.pick(100_000, 3_000_000), make: Box::new(shaped_input), oracle: c01_oracle }),
-            Box::new(RandomLeg { name: "large-inputs", cases: tier.pick(160, 2_000), make: Box::new(gen::big_bytes), oracle: c01_oracle }),
+            Box::new(RandomLeg { name: "generated-strings", cases: tier.pick(500_000, 4_000_000), make: Box::new(gen::parser_input), oracle: c01_oracle }),
+            Box::new(RandomLeg { name: "fci-and-sdes-shaped", cases: tier.pick(400_000, 3_000_000), make: Box::new(shaped_input), oracle: c01_oracle }),
+            Box::new(RandomLeg { name: "large-inputs", cases: tier.pick(480, 2_000), make: Box::new(gen::big_bytes), oracle: c01_oracle }),
             Box::new(SweepLeg { name: "all-strings-up-to-2-bytes", n: 1 + 256 + 65536, at: Box::new(short_strings), oracle: c01_oracle, exhaustive: true }),
             Box::new(SweepLeg { name: "header-space", n, at: Box::new(move |i| sweep.at(i)), oracle: c01_oracle, exhaustive: true }),
-            // the quick selection of length fields in both tiers: every accessor incl. Debug runs over up to 256 KiB
-            len_leg(Tier::Quick, c01_len_oracle),
+            // a selection of length fields (0..=40, powers of two +-1, the top): every accessor incl. Debug runs over up to 512 KiB
+            super::parse::len_leg_small(c01_len_oracle),
         ],
     }
 }
@@ -856,6 +885,23 @@ pub(crate) fn c11_oracle(c: &CompoundCase, st: &mut Stats) -> Verdict {
         }
     }
     ensure!(yielded <= tiles.len(), "C11:more-items-than-tiles", "{yielded} items for {} tiles", tiles.len());
+    // every other way of iterating (nth, skip, step_by, count, last) must see the same sequence
+    if b.len() <= 8192 {
+        let mut expected: Vec<String> = Vec::new();
+        for (a, e) in &tiles {
+            let r = no_panic("Packet::parse", || Packet::parse(&b[*a..*e]))?;
+            let is_err = r.is_err();
+            expected.push(format!("{r:?}"));
+            if is_err {
+                break;
+            }
+        }
+        let salt = b.iter().fold(c.extra as u64, |h, x| h.wrapping_mul(0x100_0000_01b3).wrapping_add(*x as u64));
+        no_panic("Compound iterator protocol", || {
+            super::common::iter_protocol("Compound", "C11", || Compound::parse(b).expect("accepted above"), |item| format!("{item:?}"), &expected, salt, true)
+        })??;
+        st.label("iterator protocol checked (nth / skip / step_by / count / last)");
+    }
     st.label_if(err_not_last, "erroring tile that is not last");
     if tiles.len() >= 2 || err_not_last {
         st.nontrivial();
@@ -870,7 +916,10 @@ fn compound_case() -> BoxedStrategy<CompoundCase> {
         1 => Just(vec![0x80, 0xc9, 0x00, 0x05]),
         1 => Just(vec![0x80, 0xcb, 0xff, 0xff, 0, 0, 0, 0]),
     ];
-    (gen::concat_bytes(), tail, 0u8..=5, prop_oneof![8 => Just(None), 1 => any::<u16>().prop_map(Some)])
+    // tiles that are SDES packets with item-level defects (errors other than framing ones) among valid tiles
+    let sdes_mix = proptest::collection::vec(prop_oneof![2 => super::sdes::token_level().prop_map(|b| b.0), 1 => super::sdes::mutated_sdes().prop_map(|b| b.0), 2 => gen::valid_image()], 1..=5)
+        .prop_map(|tiles| tiles.into_iter().flatten().collect::<Vec<u8>>());
+    (prop_oneof![5 => gen::concat_bytes(), 2 => sdes_mix], tail, 0u8..=5, prop_oneof![8 => Just(None), 1 => any::<u16>().prop_map(Some)])
         .prop_map(|(mut b, tail, extra, cut)| {
             b.extend_from_slice(&tail);
             if let Some(c) = cut {
@@ -1081,6 +1130,14 @@ pub(crate) fn c12_oracle(c: &Bytes, st: &mut Stats) -> Verdict {
                 ensure!(r == want, format!("C12:TryFrom<&Unknown>->{}", $name), "try_from(&unknown) = {r:?}, typed parser {want:?}");
                 let v = no_panic("TryFrom<Unknown>", || <$t>::try_from(Unknown::parse(b).unwrap()))?;
                 ensure!(v == want, format!("C12:TryFrom<Unknown>->{}", $name), "try_from(unknown) = {v:?}, typed parser {want:?}");
+                // the same unknown packet held in the generic enum (its public `Unknown` variant), whatever its type byte
+                let gp = Packet::Unknown(Unknown::parse(b).unwrap());
+                let a = no_panic("Packet::Unknown(..).try_as", || gp.try_as::<$t>())?;
+                ensure!(a == want, format!("C12:Packet::Unknown::try_as->{}", $name), "Packet::Unknown(u).try_as = {a:?}, typed parser {want:?}; input {}", hex(b));
+                let r = no_panic("TryFrom<&Packet::Unknown>", || <$t>::try_from(&gp))?;
+                ensure!(r == want, format!("C12:TryFrom<&Packet::Unknown>->{}", $name), "try_from(&Packet::Unknown(u)) = {r:?}, typed parser {want:?}; input {}", hex(b));
+                let v = no_panic("TryFrom<Packet::Unknown>", || <$t>::try_from(gp))?;
+                ensure!(v == want, format!("C12:TryFrom<Packet::Unknown>->{}", $name), "try_from(Packet::Unknown(u)) = {v:?}, typed parser {want:?}; input {}", hex(b));
             }};
         }
         uconv!(SenderReport, "SenderReport");
